@@ -778,6 +778,11 @@ def check_C12(tr, expiration):
                         out.append(Finding("C12", "a sweep keeps a mailbox that is subscribed or recently active", st.i,
                                            {"mailbox": (a, mb), "subscribed": (a, mb) in subs,
                                             "last_activity": last.get((a, mb)), "now": now}))
+            # being subscribed when a sweep runs counts as activity at that instant: a client that leaves afterwards may stay
+            # away for the expiration time minus (at most) one sweep period - the sweeps are the periodic timer's
+            for k in subs:
+                if k in post_ids:
+                    last[k] = now
             # sweeping never removes rows of a mailbox that stays
             for r in st.pre.nameplates:
                 if (r[1], r[3]) in post_ids and (r[1], r[2]) not in st.post.np_by_key():
